@@ -132,13 +132,19 @@ def decide(mod, run, replay):
 
     if replay:
         payload = json.loads(Path(replay).read_text())
+        # same PRNG state as the pass that wrote the replay file: replays that re-run the generator reproduce the case
+        run.seed = int(payload.get("seed", run.seed))
+        run.start_pass(payload.get("pass", payload.get("tier", "quick")))
+        run.info["replay_of"] = {k: payload.get(k) for k in ("kind", "seed", "tier", "pass")}
         mod.replay(run, driver, payload)
     else:
+        run.start_pass(run.tier)
         mod.explore(run, driver, run.tier)
         unknown = [v for v in run.violations if v.get("signature") not in known_sigs]
         if (run.broken or run.diffs) and not unknown:
             # a broken obligation / correspondence is not a verdict: search for a failing input
             run.info["search"] = "ran"
+            run.start_pass("search")
             mod.explore(run, driver, "search")
 
     unknown = [v for v in run.violations if v.get("signature") not in known_sigs]
